@@ -248,8 +248,49 @@ def run_impl(mode, casefile, env=None, timeout=900):
     e = {'ZINOMA_VERIF': mode, 'ZINOMA_VERIF_CASES': casefile, 'RUST_BACKTRACE': '0'}
     if env:
         e.update(env)
-    rc, out, err = sh([ZINOMA], env=e, timeout=timeout)
+    # The harness process may leave children behind (a service the real code failed to stop): they would keep a pipe open
+    # for ever, so the output goes to files, the process runs in its own session and whatever is left of that session when it
+    # has exited is counted (LEFTOVER[casefile]) and killed.
+    import signal as _s
+    import tempfile
+    ee = dict(os.environ)
+    ee.update(e)
+    with tempfile.TemporaryFile() as fo, tempfile.TemporaryFile() as fe:
+        p = subprocess.Popen([ZINOMA], env=ee, stdout=fo, stderr=fe, stdin=subprocess.DEVNULL, start_new_session=True)
+        try:
+            rc = p.wait(timeout=timeout)
+        except subprocess.TimeoutExpired:
+            rc = -9
+        left = 0
+        try:
+            for d in os.listdir('/proc'):
+                if d.isdigit() and int(d) != p.pid:
+                    try:
+                        st = open('/proc/%s/stat' % d).read()
+                        f = st[st.rindex(')') + 2:].split()
+                        if int(f[2]) == p.pid and f[0] != 'Z':          # pgrp
+                            left += 1
+                    except (OSError, ValueError, IndexError):
+                        pass
+        except OSError:
+            pass
+        LEFTOVER[casefile] = left
+        try:
+            os.killpg(p.pid, _s.SIGKILL)
+        except (ProcessLookupError, PermissionError):
+            pass
+        try:
+            p.wait(timeout=10)
+        except Exception:
+            pass
+        fo.seek(0)
+        fe.seek(0)
+        out = fo.read().decode('utf-8', 'replace')
+        err = fe.read().decode('utf-8', 'replace')
     return rc, out.splitlines(), err
+
+
+LEFTOVER = {}
 
 
 def run_model(mode, casefile, timeout=900):
